@@ -15,6 +15,12 @@ type Val struct {
 	S    string  // SMT term (scalar, datatype or array sort)
 	Tup  []*Val  // tuple components
 	Path []pathEl // non-empty: pointer into a sub-object of the struct object S points to
+	M    *memNode // spec values only: memory snapshot that reads through this value use (old(...))
+	// bound variables of quantifiers are represented relative to an absolute
+	// row index: S == (AbsIdx - AbsOff).  Indexing a slice whose offset term is
+	// AbsOff then uses AbsIdx directly, which keeps solver triggers free of
+	// arithmetic.
+	AbsIdx, AbsOff string
 }
 
 type pathEl struct {
